@@ -123,7 +123,14 @@ static long stop_n_mode(int m, int tier)
   return prefix[m][tier][ntriples[tier]];
 }
 
-static long stop_n(int tier) { return stop_n_mode(0, tier); }
+/* quick tier of C07: the state "exited, reap interrupted" for every 8th triple (the thorough tier has it for all) */
+static long waitfail_extras(int tier)
+{
+  build_prefix();
+  return tier ? 0 : (long) ((ntriples[0] + 7) / 8) * 2 * NCB;
+}
+
+static long stop_n(int tier) { return stop_n_mode(0, tier) + waitfail_extras(tier); }
 
 static void decode(int m, int tier, long cfg, struct cfg *c)
 {
@@ -515,6 +522,18 @@ static void run_cfg(const char *prop_unused)
 
 static void c07_run(int tier, long cfg)
 {
+  long nmain = stop_n_mode(0, tier);
+  if (cfg >= nmain) {
+    long e = cfg - nmain, tr = (e / (2 * NCB)) * 8, v = e % (2 * NCB);
+    memset(&C, 0, sizeof C);
+    for (int i = 0; i < 3; i++) { C.a[i] = acts[triples[tier][tr][i]]; C.t[i] = tmos[triples[tier][tr][3 + i]]; }
+    C.deadline = (v % 2) ? 3 : 0;
+    C.cb = (int) (v / 2);
+    C.is = IS_WAITFAIL;
+    C.via = VIA_STOP;
+    run_cfg("C07");
+    return;
+  }
   decode(0, tier, cfg, &C);
   if (cfg % (tier ? 3 : 11) == 0) C.faults = 1; /* a failing kill(), a poll interrupted by a signal after any of the elapsed times */
   run_cfg("C07");
